@@ -140,8 +140,10 @@ BearerNext ==
 KeyToks == {"K_hash", "K_cert", "K_subject", "K_uri", "K_dns", "K_by", "K_chain"}
 DecodedKeys == {"K_cert", "K_uri", "K_by"}       \* the URL-encoded fields
 
-\* value atoms -> content characters; "ESC" is an RFC 2253 escaped comma
-Expand(atom) == IF atom = "ESC" THEN <<"BS", "COMMA">> ELSE <<atom>>
+\* value atoms -> content characters; "ESC" is an RFC 2253 escaped comma, "ESCBS" an RFC 2253
+\* escaped backslash (a subject whose value ends in a backslash ends  \\\\  right before the
+\* closing quote: the backslashes of a subject always come in pairs)
+Expand(atom) == CASE atom = "ESC" -> <<"BS", "COMMA">> [] atom = "ESCBS" -> <<"BS", "BS">> [] OTHER -> <<atom>>
 Content(atoms) == Cat([i \in DOMAIN atoms |-> Expand(atoms[i])])
 
 \* a value must be quoted when it contains a separator, "=", a quote or a backslash,
